@@ -87,7 +87,7 @@ CLAIMED = {
         design="§4 C11"),
     "C16": dict(
         technique="Lean 4: inertness/laziness theorems for non-recording spans and empty local context, stateless disabled model; differential: the same programs on the real crate built with and without `enable` (fh-seq / fh-off) vs the two models; closure-invocation oracle; /proc thread count",
-        text="Kernel-checked: C16_*_noop family (no closure call, state unchanged / SameWire), C16_child_of_noop, C16_root_before_reporter, C16_scope_noop, C16_local_inert, C16_disabled. Tie: every program also runs against fastrace compiled without the enable feature: every answer must be the no-op answer, no closure runs, no fastrace thread exists, the reporter is never called.",
+        text="Kernel-checked: C16_*_noop family (no closure call, state unchanged / SameWire), C16_child_of_noop, C16_root_before_reporter, C16_scope_noop, C16_local_inert, C16_disabled; whole programs: C16_no_reporter_program_inert (a program that never installs a reporter — any threads, scopes, collectors, adapters, cycles — never returns a report with records, a context, an elapsed() value, nor runs a closure given to a span handle; invariant NoRep). Tie: every program also runs against fastrace compiled without the enable feature: every answer must be the no-op answer, no closure runs, no fastrace thread exists, the reporter is never called.",
         note="Event::with_properties evaluates eagerly when enabled (closure passed to an Event, not to a span).",
         design="§4 C16"),
     "C17": dict(
@@ -122,10 +122,10 @@ CLAIMED = {
         note="Defect D15 (statements before a Box::pin(async move {..}) tail were dropped by the macro) fixed in /repo (e541291), witness twin boxed_plain/boxed_traced; annotated functions called during thread-local teardown are covered by the tls_teardown twins. Partial by nature: that the expansion equals 'wrapper around the unchanged body' for all Rust functions is validated on generated twins, not proved (no Lean semantics of Rust). Rejections of malformed attributes are covered by the repository's trybuild ui test (baseline) and by C15_rejections on the model.",
         design="§4 C15"),
     "C18": dict(
-        technique="Lean 4: duration/begin formulas of the collector, strictly increasing logical clock, finish-after-begin, begin instants strictly increasing along a scope's queue, elapsed(); relational tie: every API call bracketed by monotonic and wall-clock readings, window checks on every delivered record",
-        text="Kernel-checked: C18_duration_span, C18_duration_local (open spans end at collection time), C18_begin_plus_duration (monotone conversion), C18_clock_strict, C18_finish_after_begin, C18_queue_begins_increase, C18_elapsed. "
+        technique="Lean 4: duration/begin formulas of the collector, strictly increasing logical clock, finish-after-begin, begin instants strictly increasing along a scope's queue, nesting/disjointness of local-span intervals by induction over block trees, elapsed(); relational tie: every API call bracketed by monotonic and wall-clock readings, window checks on every delivered record",
+        text="Kernel-checked: C18_duration_span, C18_duration_local (open spans end at collection time), C18_begin_plus_duration (monotone conversion), C18_clock_strict, C18_finish_after_begin, C18_queue_begins_increase, C18_elapsed; C18_local_spans_nest and C18_siblings_disjoint: for every well-nested tree of local spans / events / properties (any depth, unbounded), everything recorded inside a local span lies strictly inside its (begin, end) and sibling blocks do not overlap (mutual induction over the block structure, Lemmas/Nesting.lean). "
              "Tie: the harness brackets every call with std Instant / SystemTime readings; per delivered record: duration within the window between creating and finishing call, begin inside the creating call's wall-clock window, event timestamps inside the span's interval, local children inside local parents and siblings disjoint (same report = same anchor), elapsed() in its window; and the implementation's zero/non-zero durations agree with the model's clock readings.",
-        note="Partial: the real clock cannot be injected, so model instants and real instants are related through windows, not equated; fastant's conversion is assumed monotone and its TSC consistent across cores. Interval containment of nested local spans is checked on the implementation and follows in the model from C18_queue_begins_increase + LIFO closing (C10), not yet stated as one theorem.",
+        note="Partial: the real clock cannot be injected, so model instants and real instants are related through windows, not equated; fastant's conversion is assumed monotone and its TSC consistent across cores. Interval containment of nested local spans and sibling disjointness are theorems of the model (C18_local_spans_nest, C18_siblings_disjoint) and are checked on the implementation's records.",
         design="§4 C18"),
 }
 
